@@ -8,23 +8,6 @@ matrix never increase `matW` (or-expansion duplicates the rest of a row, which t
 for), specialisation by a root constructor strictly decreases it. -/
 namespace SamVerif.Useful
 
-mutual
-def patW : Pat → Nat
-  | .wild => 0
-  | .struct _ args => rowW args
-  | .or ps => sumW ps
-def rowW : List Pat → Nat
-  | [] => 1
-  | p :: ps => (1 + patW p) * rowW ps
-def sumW : List Pat → Nat
-  | [] => 0
-  | p :: ps => (1 + patW p) + sumW ps
-end
-
-def matW : Matrix → Nat
-  | [] => 0
-  | r :: P => rowW r + matW P
-
 theorem rowW_pos : ∀ (ps : List Pat), 0 < rowW ps
   | [] => by simp [rowW]
   | p :: ps => by
@@ -343,5 +326,308 @@ theorem cex_terminates_aux (cx : Cx) : ∀ (a b : Nat) (P : Matrix) (n : Nat),
         obtain ⟨m', rfl⟩ : ∃ m', m = m' + 1 := ⟨m - 1, by omega⟩
         simp only [cexF, hn, if_false, hs]
         exact h m' (by omega)
+
+
+/-! ### An explicit fuel bound
+
+`A` bounds the arity of every constructor pattern occurring in `P` and `q` (specialisation and the
+default matrix only copy sub-patterns and add wildcards, so the bound is invariant).  The potential
+`(matW P + rowW q) * (A + 1) + |q|` strictly decreases at every recursive call. -/
+
+theorem arL_append : ∀ (a b : List Pat), arL (a ++ b) = max (arL a) (arL b)
+  | [], b => by simp [arL]
+  | p :: a, b => by simp [arL, arL_append a b, Nat.max_assoc]
+
+theorem arL_wilds : ∀ (n : Nat), arL (wilds n) = 0
+  | 0 => by simp [wilds, arL]
+  | n + 1 => by rw [wilds_succ]; simp [arL, arP, arL_wilds n]
+
+theorem arM_append : ∀ (A B : Matrix), arM (A ++ B) = max (arM A) (arM B)
+  | [], B => by simp [arM]
+  | r :: A, B => by simp [arM, arM_append A B, Nat.max_assoc]
+
+theorem arL_mem : ∀ (ps : List Pat) (p : Pat), p ∈ ps → arP p ≤ arL ps
+  | [], _, h => by simp at h
+  | q :: ps, p, h => by
+    simp only [List.mem_cons] at h
+    simp only [arL]
+    rcases h with h | h
+    · subst h; omega
+    · have := arL_mem ps p h; omega
+
+mutual
+theorem specHead_ar (c : Option Ctor) (n : Nat) (rest : Row) : ∀ (p : Pat),
+    arM (specHead c n rest p) ≤ max (arP p) (arL rest)
+  | .wild => by simp [specHead, arM, arL_append, arL_wilds, arP]
+  | .struct c' rs => by
+    have h : arL (rs ++ rest) ≤ max (arP (.struct c' rs)) (arL rest) := by
+      simp only [arL_append, arP]; omega
+    cases c' with
+    | none => simpa [specHead, arM] using h
+    | some a =>
+      cases c with
+      | none => simpa [specHead, arM] using h
+      | some b =>
+        simp only [specHead]
+        split
+        · simpa [arM] using h
+        · simp [arM]
+  | .or ps => by
+    simp only [specHead, arP]
+    exact specHeads_ar c n rest ps
+theorem specHeads_ar (c : Option Ctor) (n : Nat) (rest : Row) : ∀ (ps : List Pat),
+    arM (specHeads c n rest ps) ≤ max (arL ps) (arL rest)
+  | [] => by simp [specHeads, arM]
+  | p :: ps => by
+    have h1 := specHead_ar c n rest p
+    have h2 := specHeads_ar c n rest ps
+    simp only [specHeads, arM_append, arL]
+    omega
+end
+
+mutual
+theorem defaultHead_ar (rest : Row) : ∀ (p : Pat), arM (defaultHead rest p) ≤ arL rest
+  | .wild => by simp [defaultHead, arM]
+  | .struct _ _ => by simp [defaultHead, arM]
+  | .or ps => by simp only [defaultHead]; exact defaultHeads_ar rest ps
+theorem defaultHeads_ar (rest : Row) : ∀ (ps : List Pat), arM (defaultHeads rest ps) ≤ arL rest
+  | [] => by simp [defaultHeads, arM]
+  | p :: ps => by
+    have h1 := defaultHead_ar rest p
+    have h2 := defaultHeads_ar rest ps
+    simp only [defaultHeads, arM_append]
+    omega
+end
+
+theorem arM_specialize_le (c : Option Ctor) (n : Nat) : ∀ (P : Matrix), arM (specialize P c n) ≤ arM P
+  | [] => by simp [specialize, arM]
+  | r :: P => by
+    have h2 := arM_specialize_le c n P
+    simp only [specialize, List.flatMap_cons, arM_append, arM] at h2 ⊢
+    cases r with
+    | nil => simp [specRow, arM]; omega
+    | cons p rest =>
+      have h1 := specHead_ar c n rest p
+      simp only [specRow, arL]
+      omega
+
+theorem arM_default_le : ∀ (P : Matrix), arM (defaultMatrix P) ≤ arM P
+  | [] => by simp [defaultMatrix, arM]
+  | r :: P => by
+    have h2 := arM_default_le P
+    simp only [defaultMatrix, List.flatMap_cons, arM_append, arM] at h2 ⊢
+    cases r with
+    | nil => simp [defaultRow, arM]; omega
+    | cons p rest =>
+      have h1 := defaultHead_ar rest p
+      simp only [defaultRow, arL]
+      omega
+
+mutual
+theorem headCtors_ar : ∀ (p : Pat) (c : Option Ctor) (n : Nat), (c, n) ∈ headCtors p → n ≤ arP p
+  | .wild, _, _, h => by simp [headCtors] at h
+  | .struct c' rs, c, n, h => by
+    simp only [headCtors, List.mem_singleton, Prod.mk.injEq] at h
+    simp only [arP]; omega
+  | .or ps, c, n, h => by
+    simp only [headCtors] at h
+    simp only [arP]
+    exact headCtorsL_ar ps c n h
+theorem headCtorsL_ar : ∀ (ps : List Pat) (c : Option Ctor) (n : Nat), (c, n) ∈ headCtorsL ps → n ≤ arL ps
+  | [], _, _, h => by simp [headCtorsL] at h
+  | p :: ps, c, n, h => by
+    simp only [headCtorsL, List.mem_append] at h
+    simp only [arL]
+    rcases h with h | h
+    · have := headCtors_ar p c n h; omega
+    · have := headCtorsL_ar ps c n h; omega
+end
+
+theorem rawRoots_ar : ∀ (P : Matrix) (c : Option Ctor) (n : Nat), (c, n) ∈ rawRoots P → n ≤ arM P
+  | [], _, _, h => by simp [rawRoots] at h
+  | r :: P, c, n, h => by
+    simp only [rawRoots, List.flatMap_cons, List.mem_append] at h
+    simp only [arM]
+    rcases h with h | h
+    · cases r with
+      | nil => simp [rowHeadCtors] at h
+      | cons p rest =>
+        have := headCtors_ar p c n h
+        simp only [arL]; omega
+    · have := rawRoots_ar P c n (by simpa [rawRoots] using h)
+      omega
+
+theorem mul_step (a' a A : Nat) (h : a' + 1 ≤ a) : a' * (A + 1) + (A + 1) ≤ a * (A + 1) := by
+  have := Nat.mul_le_mul_right (A + 1) h
+  rw [Nat.add_mul, Nat.one_mul] at this
+  exact this
+
+theorem anyO_stable_at {α : Type} (f : Nat → α → Option Bool) (k : Nat) : ∀ (l : List α),
+    (∀ x ∈ l, ∃ r, ∀ m, k < m → f m x = some r) → ∃ r, ∀ m, k < m → anyO (f m) l = some r
+  | [], _ => ⟨false, fun _ _ => by simp [anyO]⟩
+  | x :: xs, h => by
+    obtain ⟨r1, h1⟩ := h x (by simp)
+    obtain ⟨r2, h2⟩ := anyO_stable_at f k xs (fun y hy => h y (by simp [hy]))
+    cases r1 with
+    | true => exact ⟨true, fun m hm => by simp [anyO, h1 m hm]⟩
+    | false => exact ⟨r2, fun m hm => by simp [anyO, h1 m hm, h2 m hm]⟩
+
+theorem firstO_stable_at {α β : Type} (f : Nat → α → Option (Option β)) (k : Nat) : ∀ (l : List α),
+    (∀ x ∈ l, ∃ r, ∀ m, k < m → f m x = some r) → ∃ r, ∀ m, k < m → firstO (f m) l = some r
+  | [], _ => ⟨none, fun _ _ => by simp [firstO]⟩
+  | x :: xs, h => by
+    obtain ⟨r1, h1⟩ := h x (by simp)
+    obtain ⟨r2, h2⟩ := firstO_stable_at f k xs (fun y hy => h y (by simp [hy]))
+    cases r1 with
+    | some d => exact ⟨some d, fun m hm => by simp [firstO, h1 m hm]⟩
+    | none => exact ⟨r2, fun m hm => by simp [firstO, h1 m hm, h2 m hm]⟩
+
+theorem useful_fuel_aux (cx : Cx) (A : Nat) : ∀ (k : Nat) (P : Matrix) (q : Row),
+    arM P ≤ A → arL q ≤ A → (matW P + rowW q) * (A + 1) + q.length ≤ k →
+    ∃ r, ∀ m, k < m → usefulF cx m P q = some r := by
+  intro k
+  induction k with
+  | zero =>
+    intro P q _ _ h
+    have h1 := rowW_pos q
+    have h2 := mul_step 0 (matW P + rowW q) A (by omega)
+    omega
+  | succ k ih =>
+    intro P q hP hq hk
+    by_cases hPe : P.isEmpty = true
+    · refine ⟨true, fun m hm => ?_⟩
+      obtain ⟨m', rfl⟩ : ∃ m', m = m' + 1 := ⟨m - 1, by omega⟩
+      simp [usefulF, hPe]
+    cases q with
+    | nil =>
+      refine ⟨false, fun m hm => ?_⟩
+      obtain ⟨m', rfl⟩ : ∃ m', m = m' + 1 := ⟨m - 1, by omega⟩
+      simp [usefulF, hPe]
+    | cons p rest =>
+      have hrest := rowW_pos rest
+      cases p with
+      | struct c rs =>
+        have hle := matW_specialize_le c rs.length P
+        have har := arM_specialize_le c rs.length P
+        simp only [arL, arP] at hq
+        have hstep := mul_step (matW (specialize P c rs.length) + rowW (rs ++ rest))
+          (matW P + rowW (Pat.struct c rs :: rest)) A (by
+            simp only [rowW, patW, rowW_append, Nat.add_mul, Nat.one_mul]; omega)
+        obtain ⟨r, h⟩ := ih (specialize P c rs.length) (rs ++ rest) (by omega)
+          (by rw [arL_append]; omega) (by simp only [List.length_append, List.length_cons] at hk ⊢; omega)
+        refine ⟨r, fun m hm => ?_⟩
+        obtain ⟨m', rfl⟩ : ∃ m', m = m' + 1 := ⟨m - 1, by omega⟩
+        simp only [usefulF, hPe]
+        exact h m' (by omega)
+      | wild =>
+        simp only [arL, arP] at hq
+        cases hs : sigIncomplete cx (rootCtors P) with
+        | none =>
+          have hall : ∀ cn ∈ rootCtors P, ∃ r, ∀ m, k < m →
+              usefulF cx m (specialize P cn.1 cn.2) (wilds cn.2 ++ rest) = some r := by
+            intro cn hmem
+            have hlt := matW_specialize_lt cn.1 cn.2 P (rawRoots_ne_of_mem P cn hmem)
+            have har := arM_specialize_le cn.1 cn.2 P
+            have hn : cn.2 ≤ A := Nat.le_trans (rawRoots_ar P cn.1 cn.2 (rootCtors_sub P cn hmem)) hP
+            have hstep := mul_step (matW (specialize P cn.1 cn.2) + rowW (wilds cn.2 ++ rest))
+              (matW P + rowW (Pat.wild :: rest)) A (by
+                simp only [rowW, patW, rowW_append, rowW_wilds, Nat.one_mul, Nat.add_zero]; omega)
+            exact ih _ _ (by omega) (by rw [arL_append, arL_wilds]; omega)
+              (by simp only [List.length_append, wilds_length, List.length_cons] at hk ⊢; omega)
+          obtain ⟨r, h⟩ := anyO_stable_at
+            (fun m (cn : Option Ctor × Nat) => usefulF cx m (specialize P cn.1 cn.2) (wilds cn.2 ++ rest)) k _ hall
+          refine ⟨r, fun m hm => ?_⟩
+          obtain ⟨m', rfl⟩ : ∃ m', m = m' + 1 := ⟨m - 1, by omega⟩
+          simp only [usefulF, hPe, hs]
+          exact h m' (by omega)
+        | some inc =>
+          have hle := matW_default_le P
+          have har := arM_default_le P
+          have hmono := Nat.mul_le_mul_right (A + 1)
+            (show matW (defaultMatrix P) + rowW rest ≤ matW P + rowW (Pat.wild :: rest) by
+              simp only [rowW, patW, Nat.add_zero, Nat.one_mul]; omega)
+          obtain ⟨r, h⟩ := ih (defaultMatrix P) rest (by omega) (by omega)
+            (by simp only [List.length_cons] at hk; omega)
+          refine ⟨r, fun m hm => ?_⟩
+          obtain ⟨m', rfl⟩ : ∃ m', m = m' + 1 := ⟨m - 1, by omega⟩
+          simp only [usefulF, hPe, hs]
+          exact h m' (by omega)
+      | or ps =>
+        simp only [arL, arP] at hq
+        have hall : ∀ r ∈ ps, ∃ b, ∀ m, k < m → usefulF cx m P (r :: rest) = some b := by
+          intro r hmem
+          have h1 := sumW_mem ps r hmem
+          have h2 := Nat.mul_le_mul_right (rowW rest) h1
+          have har := arL_mem ps r hmem
+          have hstep := mul_step (matW P + rowW (r :: rest)) (matW P + rowW (Pat.or ps :: rest)) A (by
+            simp only [rowW, patW, Nat.add_mul, Nat.one_mul] at h2 ⊢; omega)
+          exact ih P (r :: rest) hP (by simp only [arL]; omega)
+            (by simp only [List.length_cons] at hk ⊢; omega)
+        obtain ⟨r, h⟩ := anyO_stable_at (fun m r => usefulF cx m P (r :: rest)) k _ hall
+        refine ⟨r, fun m hm => ?_⟩
+        obtain ⟨m', rfl⟩ : ∃ m', m = m' + 1 := ⟨m - 1, by omega⟩
+        simp only [usefulF, hPe]
+        exact h m' (by omega)
+
+theorem cex_fuel_aux (cx : Cx) (A : Nat) : ∀ (k : Nat) (P : Matrix) (n : Nat),
+    arM P ≤ A → matW P * (A + 1) + n ≤ k → ∃ r, ∀ m, k < m → cexF cx m P n = some r := by
+  intro k
+  induction k with
+  | zero =>
+    intro P n _ hk
+    have hn : n = 0 := by omega
+    subst hn
+    refine ⟨if P.isEmpty then some [] else none, fun m hm => ?_⟩
+    obtain ⟨m', rfl⟩ : ∃ m', m = m' + 1 := ⟨m - 1, by omega⟩
+    cases P <;> simp [cexF]
+  | succ k ih =>
+    intro P n hP hk
+    by_cases hn : n = 0
+    · subst hn
+      refine ⟨if P.isEmpty then some [] else none, fun m hm => ?_⟩
+      obtain ⟨m', rfl⟩ : ∃ m', m = m' + 1 := ⟨m - 1, by omega⟩
+      cases P <;> simp [cexF]
+    cases hs : sigIncomplete cx (rootCtors P) with
+    | some inc =>
+      have hle := matW_default_le P
+      have har := arM_default_le P
+      have hmono := Nat.mul_le_mul_right (A + 1) hle
+      obtain ⟨r, h⟩ := ih (defaultMatrix P) (n - 1) (by omega) (by omega)
+      refine ⟨match r with
+        | none => none
+        | some v => some ((match minCtor inc with
+            | some (variant, size) => Pat.struct (some variant) (wilds size)
+            | none => Pat.wild) :: v), fun m hm => ?_⟩
+      obtain ⟨m', rfl⟩ : ∃ m', m = m' + 1 := ⟨m - 1, by omega⟩
+      simp only [cexF, hn, if_false, hs, h m' (by omega)]
+      cases r <;> rfl
+    | none =>
+      have hall : ∀ cn ∈ sortByKey (rootCtors P), ∃ r, ∀ m, k < m →
+          (match cexF cx m (specialize P cn.1 cn.2) (cn.2 + n - 1) with
+            | none => none
+            | some none => some none
+            | some (some v) => some (some (Pat.struct cn.1 (v.take cn.2) :: v.drop cn.2))) = some r := by
+        intro cn hmem
+        have hmem' := (mem_sortByKey _ _).mp hmem
+        have hlt := matW_specialize_lt cn.1 cn.2 P (rawRoots_ne_of_mem P cn hmem')
+        have har := arM_specialize_le cn.1 cn.2 P
+        have hcn : cn.2 ≤ A := Nat.le_trans (rawRoots_ar P cn.1 cn.2 (rootCtors_sub P cn hmem')) hP
+        have hstep := mul_step (matW (specialize P cn.1 cn.2)) (matW P) A (by omega)
+        obtain ⟨r, h⟩ := ih (specialize P cn.1 cn.2) (cn.2 + n - 1) (by omega) (by omega)
+        refine ⟨match r with
+          | none => none
+          | some v => some (Pat.struct cn.1 (v.take cn.2) :: v.drop cn.2), fun m hm => ?_⟩
+        rw [h m hm]
+        cases r <;> rfl
+      obtain ⟨r, h⟩ := firstO_stable_at
+        (fun m (cn : Option Ctor × Nat) =>
+          match cexF cx m (specialize P cn.1 cn.2) (cn.2 + n - 1) with
+            | none => none
+            | some none => some none
+            | some (some v) => some (some (Pat.struct cn.1 (v.take cn.2) :: v.drop cn.2))) k _ hall
+      refine ⟨r, fun m hm => ?_⟩
+      obtain ⟨m', rfl⟩ : ∃ m', m = m' + 1 := ⟨m - 1, by omega⟩
+      simp only [cexF, hn, if_false, hs]
+      exact h m' (by omega)
 
 end SamVerif.Useful
